@@ -55,16 +55,16 @@ package heap
 //@   requires 0 <= i && i < len(h.data) && swo(h.comp)
 //@   requires forall k int :: { h.data[k] } 1 <= k && k < len(h.data) && k != i ==> ord(h.data, h.comp, k)
 //@   requires i >= 1 ==> forall k int :: { h.data[k] } 1 <= k && k < len(h.data) && (k-1)/2 == i ==> !call(h.comp, h.data[k], h.data[(i-1)/2])
-//@   requires permOK(h.data, len(h.data), ref, p0, plo, phi)
+//@   requires[seq] permOK(h.data, len(h.data), ref, p0, plo, phi)
 //@   modifies elems(h.data)
 //@   ensures H(h.data, h.comp, len(h.data), 0)
-//@   ensures permOK(h.data, len(h.data), ref, perm, plo, phi)
+//@   ensures[seq] permOK(h.data, len(h.data), ref, perm, plo, phi)
 //@   ensures forall a int :: a < soff(h.data) || a >= soff(h.data) + len(h.data) ==> elems(h.data)[a] == old(elems(h.data)[a])
 //@ loop 1
 //@   invariant 0 <= i && i < len(h.data)
 //@   invariant forall k int :: { h.data[k] } 1 <= k && k < len(h.data) && k != i ==> ord(h.data, h.comp, k)
 //@   invariant i >= 1 ==> forall k int :: { h.data[k] } 1 <= k && k < len(h.data) && (k-1)/2 == i ==> !call(h.comp, h.data[k], h.data[(i-1)/2])
-//@   invariant permOK(h.data, len(h.data), ref, perm, plo, phi)
+//@   invariant[seq] permOK(h.data, len(h.data), ref, perm, plo, phi)
 //@   invariant forall a int :: a < soff(h.data) || a >= soff(h.data) + len(h.data) ==> elems(h.data)[a] == old(elems(h.data)[a])
 //@   ghost-at swap#1: tmp = perm[i]
 //@   ghost-at swap#1: perm[i] = perm[(i-1)/2]
@@ -114,6 +114,7 @@ package heap
 //@ func (*heap.Heap).Push
 //@   property C03 C01 C02
 //@   lock h.mu : none
+//@   opt multi-section
 //@   requires heapInv(h)
 //@   requires len(val) == 0 || sarr(val) != sarr(h.data)
 //@   ghost ref seq[T] = lambda j int :: (j < len(h.data) ? h.data[j] : val[j - len(h.data)])
@@ -125,9 +126,10 @@ package heap
 //@   ensures forall j int :: { ref[j] } 0 <= j && j < old(len(h.data)) ==> ref[j] == old(h.data[j])
 //@   ensures forall j int :: { val[j] } 0 <= j && j < len(val) ==> ref[old(len(h.data)) + j] == val[j]
 //@ loop 1
-//@   invariant 0 <= $i && $i <= len(val) && heapInv(h) && len(h.data) == old(len(h.data)) + $i
-//@   invariant fresh(h.data) || (sarr(h.data) == old(sarr(h.data)) && soff(h.data) == old(soff(h.data)))
-//@   invariant permOK(h.data, len(h.data), ref, perm, 0, len(h.data))
+//@   invariant[seq] 0 <= $i && $i <= len(val) && heapInv(h) && len(h.data) == old(len(h.data)) + $i
+//@   invariant[conc] 0 <= $i && $i <= len(val) && h.mu != nil
+//@   invariant[seq] fresh(h.data) || (sarr(h.data) == old(sarr(h.data)) && soff(h.data) == old(soff(h.data)))
+//@   invariant[seq] permOK(h.data, len(h.data), ref, perm, 0, len(h.data))
 //@   call moveUp#1 ghost ref = ref; p0 = store(perm, len(h.data) - 1, len(h.data) - 1); plo = 0; phi = len(h.data)
 
 //@ func (*heap.Heap).Clear
@@ -282,3 +284,6 @@ package heap
 //@   ensures heapInv(h)
 //@   ghost-at getIndex#1: gone = $ret0
 //@   call moveDown#1 ghost lo = 0; ref = ref; p0 = store(idmap(), gone, len(h.data)); plo = 0; phi = len(h.data) + 1
+
+//@ guards heap.Heap.mu : data, comp, elems(data)
+//@ lockinv heap.Heap : heapInv(self)
